@@ -917,6 +917,16 @@ pub fn core_issue(
                     }
                 }
             }
+            // order 6..11: the token is issued from a `.clone()` of the configured builder, 12..17: from a copy
+            #[allow(clippy::clone_on_copy)]
+            let mut b = match order / 6 {
+                1 => b.clone(),
+                2 => {
+                    let c = b;
+                    c
+                }
+                _ => b,
+            };
             if rebuild {
                 // the same core builder object issues a second token: only the payload is set again
                 let _ = b.try_encrypt(&key, &n);
@@ -952,6 +962,15 @@ pub fn core_issue(
                     }
                 }
             }
+            #[allow(clippy::clone_on_copy)]
+            let mut b = match order / 6 {
+                1 => b.clone(),
+                2 => {
+                    let c = b;
+                    c
+                }
+                _ => b,
+            };
             if rebuild {
                 let _ = b.try_sign(&key);
                 b.set_payload(Payload::from(payload));
@@ -1015,6 +1034,15 @@ pub fn core_issue(
                     }
                 }
             }
+            #[allow(clippy::clone_on_copy)]
+            let mut b = match order / 6 {
+                1 => b.clone(),
+                2 => {
+                    let c = b;
+                    c
+                }
+                _ => b,
+            };
             if rebuild {
                 let _ = b.try_sign(&key);
                 b.set_payload(Payload::from(payload));
@@ -1396,6 +1424,81 @@ impl World {
             Op::ScriptEntropy { draws } => {
                 env::set_entropy_script(draws.iter().filter_map(|d| hex::decode(d).ok()).collect());
                 Obs::Scripted
+            }
+            Op::ConcurrentIssuers { proto, layer, key, threads, builds_each, draws_each } => {
+                let km = match self.keys.get(*key) {
+                    Some(k) => k.clone(),
+                    None => return Obs::Skipped("no such key".into()),
+                };
+                if !proto.is_local() || !proto.available() {
+                    return Obs::Skipped("local protocols only".into());
+                }
+                let (proto, layer, builds_each, draws_each) = (*proto, *layer, *builds_each, *draws_each);
+                let results: Vec<(Vec<Vec<u8>>, Vec<String>, u32, Vec<[u8; 32]>)> = std::thread::scope(|s| {
+                    let hs: Vec<_> = (0..*threads)
+                        .map(|_| {
+                            let km = km.clone();
+                            s.spawn(move || {
+                                env::install();
+                                let arena = Arena::new();
+                                let mut nonces = vec![];
+                                let mut tokens = vec![];
+                                let mut failed = 0u32;
+                                let mut draws = vec![];
+                                env::set_hash_base(1);
+                                env::set_clock(1_700_000_000 * crate::civil::NS, &[]);
+                                if let Ok(Ok(mut obj)) = env::guarded(|| make_builder(proto, layer)) {
+                                    let _ = env::guarded(|| obj.op(&BOp::SetClaim(ClaimSpec::Custom { key: "data".into(), value: serde_json::json!("same") }), &arena));
+                                    for k in 0..builds_each {
+                                        env::set_entropy(EntropyMode::Observe, 0, &[]);
+                                        match env::guarded(|| obj.build(&km)) {
+                                            Ok(Outcome::OkStr(t)) => {
+                                                if let Some(tk) = crate::faults::Tok::parse(&t) {
+                                                    let n = proto.nonce_len();
+                                                    if tk.payload.len() >= n {
+                                                        nonces.push(tk.payload[..n].to_vec());
+                                                    }
+                                                }
+                                                tokens.push(t);
+                                            }
+                                            _ => failed += 1,
+                                        }
+                                        if k % 1024 == 0 {
+                                            let _ = env::take_entropy_draws();
+                                            let _ = env::take_clock_reads();
+                                        }
+                                    }
+                                }
+                                env::set_entropy(EntropyMode::Observe, 0, &[]);
+                                for k in 0..draws_each {
+                                    if let Ok(Ok(b)) = env::guarded(|| rusty_paseto::core::Key::<32>::try_new_random().map(|key| *key)) {
+                                        draws.push(b);
+                                    }
+                                    if k % 4096 == 0 {
+                                        let _ = env::take_entropy_draws();
+                                    }
+                                }
+                                let _ = env::take_entropy_draws();
+                                env::uninstall();
+                                (nonces, tokens, failed, draws)
+                            })
+                        })
+                        .collect();
+                    hs.into_iter().filter_map(|h| h.join().ok()).collect()
+                });
+                let mut ns: std::collections::HashSet<Vec<u8>> = std::collections::HashSet::new();
+                let mut ts: std::collections::HashSet<String> = std::collections::HashSet::new();
+                let mut ds: std::collections::HashSet<[u8; 32]> = std::collections::HashSet::new();
+                let (mut builds_ok, mut builds_failed, mut draws_ok) = (0u32, 0u32, 0u32);
+                for (n, t, f, d) in results {
+                    builds_ok += t.len() as u32;
+                    builds_failed += f;
+                    draws_ok += d.len() as u32;
+                    ns.extend(n);
+                    ts.extend(t);
+                    ds.extend(d);
+                }
+                Obs::Concurrent { builds_ok, builds_failed, distinct_nonces: ns.len() as u32, distinct_tokens: ts.len() as u32, draws_ok, distinct_draws: ds.len() as u32 }
             }
             Op::DrawKeys { n } => {
                 env::set_entropy(EntropyMode::Observe, 0, &[]);
